@@ -342,6 +342,8 @@ pub fn run(tier: &str, seed: u64) -> Report {
     check_build(&mut report, &mut batch, &w, &[], None, &format!("gen{}", wi % 50));
   }
   registry_faults(&mut report, tier, &mut rng);
+  // npm requirements the resolver rejects: an error entry each, imported statically, dynamically or both
+  crate::c01::npm_resolver_part(&mut report, &mut rng, if tier == "thorough" { 3000 } else { 300 });
   batch.finish(&mut report, "C03");
   let _ = BTreeSet::<u8>::new();
   report
